@@ -28,6 +28,19 @@ STRENGTHENED = {
  "C13-3": "strengthened before the first run (no user-info of the product contained a host string): eighth user-info shape, 62 720 URIs",
  "C14-3": "caught from the start by the parallel run but with schedule-dependent witnesses; C13/C14 now also run the product in ascending and in descending order on one thread (history made deterministic)",
  "C18-3": "strengthened before the first run (no option text contained a comma): two comma options added",
+ "C01-5": "missed at first (no attribute name differing from a special name only in case): look-alike family",
+ "C03-5": "missed at first (same change as C01-5, found independently by a second agent): look-alike family",
+ "C05-5": "missed at first (no name longer than 256 octets with a multi-octet character across the block boundary): multi-octet texts at every alignment",
+ "C06-5": "missed by C06 at first (C08 caught it from the start): C06 now reads the document through the interface that did not parse",
+ "C07-5": "missed at first (needs a logger AND a long non-ASCII name AND a fault inside that attribute's value): evaluating logger + multi-octet names in the C07 corpus",
+ "C08-5": "missed at first (no failing payload source): failing-payload-sources section",
+ "C11-5": "missed at first (only full stalls were scripted): dribbling servers",
+ "C12-5": "missed at first (needs a DER root ending in white space, 2 % of certificates): same-anchor certificate re-signed until it does",
+ "C14-5": "missed at first (mapper and hook untouched; only what send() contacts is wrong): wire half of C14 / C11",
+ "C16-5": "missed at first (decoding depended on the header's version; the sweep used 1.1 only): version x request-id dimension",
+ "C18-5": "missed at first (no zero-padded integer of >= 12 characters among the option texts): typing witnesses with an independent decimal rule",
+ "C19-5": "missed at first (no collection member with an empty name): tricky member names",
+ "C20-5": "missed at first (no two names equal up to case in one group): name twins",
  "C18-1": "missed by C18 at first (caught by C17 from the start); C18 now scripts all 10 blocking reasons, scalar and inside a set",
 }
 def main():
